@@ -32,9 +32,8 @@ def run(rep, tier, M=None):
     a5(rep, M)
     k3(rep, M)
     k2(rep, M)
-    if tier == "thorough":
-        from . import c14_k1
-        c14_k1.k1(rep, M)
+    from . import c14_k1
+    c14_k1.k1(rep, M)
     rep.extra["programs"] = len(G.prules) + len(G.lrules)
     rep.extra["disagreements_checked"] = sum(1 for o in rep.obs if o.rule in ("C14.A3", "C14.A4"))
     return M
